@@ -17,7 +17,7 @@ from ..common import rng_for, b2j
 
 LEVEL = "exploration"
 SHARDS = {"quick": 1, "thorough": 16}
-REQUIRED = ("embedded_reference_defaults_checked", "implicit_reference_declarations_seen", "default_packets_compared", "override_packets_compared", "packs_compared", "freshness_checks", "user_defaults_seen",
+REQUIRED = ("families_with_optional_int_default_in_little_endian_class", "embedded_reference_defaults_checked", "implicit_reference_declarations_seen", "default_packets_compared", "override_packets_compared", "packs_compared", "freshness_checks", "user_defaults_seen",
             "prototype_instance_defaults_seen", "fixed_data_defaults", "variable_data_defaults", "list_defaults", "optional_defaults",
             "subset_size_1", "subset_size_2", "subset_all", "f2_probe_runs")
 MIN_NONTRIVIAL = 150
@@ -248,7 +248,14 @@ def run(run):
     else:
         run.count("f2_probe_runs")
     sampled = 0
-    for bench in driver.families(run, rng, profile, VARIANTS, nfam, instrument=(), tag="c19"):
+    import itertools
+    from .. import predicates
+    little = dict(profile, accept=predicates.little_class_with_optional_int_default, p_class_endianness=0.9, p_opt=0.35, p_default=0.7,
+                  kinds={"int": 55, "data": 20, "bits": 6, "ref": 14, "sel": 3, "em": 2})
+    for bench in itertools.chain(driver.families(run, rng, profile, VARIANTS, nfam, instrument=(), tag="c19"),
+                                 driver.families(run, rng, little, VARIANTS, max(12, nfam // 16), instrument=(), tag="c19l")):
+        if predicates.little_class_with_optional_int_default(bench.fam):
+            run.count("families_with_optional_int_default_in_little_endian_class")
         stats(run, bench.fam)
         one_family(run, bench, rng)
         if sampled < 3 and len(bench.fam["order"]) > 1:
